@@ -5,8 +5,13 @@
 From DustDDS Require Export Base.Machine Sched.ChannelsModel.
 Open Scope Z_scope.
 
-(* c_evs: harness-level operations with the implementation's observed result *)
-Record C34_case : Type := mkC34 { c_kind : kind; c_evs : list ev }.
+(* c_evs: harness-level operations with the implementation's observed result.
+   c_races: positions i such that operation i (a poll) and operation i+1 (a sender-side
+   operation) were executed CONCURRENTLY by two real threads: the second thread was released
+   from inside the poll (hook in Waker::clone) and joined after the poll returned.  If poll is
+   one critical section that registers the waker before it ends — the atomic-section
+   assumption of the model — the lock serialises the pair in the listed order. *)
+Record C34_case : Type := mkC34 { c_kind : kind; c_evs : list ev; c_races : list nat }.
 
 (* One harness operation is one critical section, except OneshotSender::send(self, v):
    the real call runs the send section and then, when `self` goes out of scope, the
@@ -58,8 +63,24 @@ Definition atomize (k : kind) (evs : list ev) : list ev :=
   | _ => evs
   end.
 
-(* the property, on the implementation's outputs *)
-Definition C34_oracle_ok (c : C34_case) : bool := oracle (c_kind c) (atomize (c_kind c) (c_evs c)).
+(* linearizations of the observed history: each concurrent pair in either order *)
+Fixpoint swap_at (i : nat) (l : list ev) : list ev :=
+  match i, l with
+  | O, a :: b :: t => b :: a :: t
+  | S i', a :: t => a :: swap_at i' t
+  | _, _ => l
+  end.
+Fixpoint linearizations (races : list nat) (l : list ev) : list (list ev) :=
+  match races with
+  | [] => [l]
+  | i :: r => linearizations r l ++ linearizations r (swap_at i l)
+  end.
+
+(* the property, on the implementation's outputs: SOME order of every concurrent pair must be
+   explained by the abstract channel (in particular: a poll that returned Pending while a send
+   completed must have been woken, or the send must come first and the poll be Ready) *)
+Definition C34_oracle_ok (c : C34_case) : bool :=
+  existsb (fun l => oracle (c_kind c) (atomize (c_kind c) l)) (linearizations (c_races c) (c_evs c)).
 
 (* no known-finding class (C34-mpsc-never-closes was fixed in /repo commit 112abf8) *)
 Definition C34_known (c : C34_case) : N := 0%N.
